@@ -14,7 +14,7 @@ from linear_operator.operators.diag_linear_operator import DiagLinearOperator
 from linear_operator.operators.root_linear_operator import RootLinearOperator
 
 from linear_operator.utils import sparse
-from linear_operator.utils.broadcasting import _pad_with_singletons
+from linear_operator.utils.broadcasting import _matmul_broadcast_shape, _pad_with_singletons
 from linear_operator.utils.generic import _to_helper
 from linear_operator.utils.getitem import _noop_index
 from linear_operator.utils.interpolation import left_interp, left_t_interp
@@ -417,6 +417,7 @@ class InterpolatedLinearOperator(LinearOperator):
 
         if isinstance(other, DiagLinearOperator):
             # if we know the rhs is diagonal this is easy
+            _matmul_broadcast_shape(self.shape, other.shape)
             new_right_interp_values = self.right_interp_values * other._diag.unsqueeze(-1)
             return InterpolatedLinearOperator(
                 base_linear_op=self.base_linear_op,
